@@ -544,10 +544,10 @@ func parseResult(resp prpc.Response) (spec.Value, status.Status) {
 		return nil, st
 	}
 
-	// Parse result
+	// Parse result, return the parsed status with its message
 	result := resp.Result()
 	if len(result) == 0 {
-		return nil, status.OK
+		return nil, st
 	}
-	return result, status.OK
+	return result, st
 }
